@@ -12,8 +12,11 @@ DIMS = {
     "fmt": ["cbdt", "sbix"],
     "order": ["consecutive", "one_gap", "two_gaps"],
     "nglyphs": [2, 1, 3],
+    # the configured bitmap_resolution: equal to the PNG's height (what the pipeline's resvg -h gives), or not
+    # (PNGs handed to write_font / _generate_color_font directly): placement is by the image's own height
+    "res_cfg": ["height", 128, 100],
 }
-K = {"quick": 3, "thorough": 7}  # 7 = the full product
+K = {"quick": 3, "thorough": 8}  # 8 = the full product
 INT8 = range(-128, 128)
 
 
@@ -43,7 +46,7 @@ def execute(dev):
     seqs = sequences(a["order"], a["nglyphs"])
     images = [pngs.png(w, h, i) for i in range(len(seqs))]
     over = {"upem": upem, "ascender": asc, "descender": desc, "width": width, "color_format": fmt,
-            "bitmap_resolution": h, "output_file": "x.ttf"}
+            "bitmap_resolution": h if a["res_cfg"] == "height" else a["res_cfg"], "output_file": "x.ttf"}
     # ---- reference model: what must be rejected -------------------------------------
     s = h / em  # exact pixels per font unit
     adv_units = max(width, round(em * w / h))
@@ -140,7 +143,6 @@ def run(report, tier, only=None):
     report.extra["deviation_bound"] = k
     report.rule = (
         "E1: all states with <= %d deviations over bitmap height (8) x aspect (5) x configured width (5) x metrics (6) x {cbdt, sbix} x glyph-order "
-        "shape (3) x number of glyphs (3), built with the real _generate_color_font from generated PNGs; image bytes, ppem, placement judged with the "
+        "shape (3) x number of glyphs (3) x configured bitmap_resolution (the image height / 128 / 100), built with the real _generate_color_font from generated PNGs; image bytes, ppem, placement judged with the "
         "exact pixel size, pixel advance, consecutive runs; unrepresentable cases must raise; distinct = format, #strikes, bitmap shape, width mode" % k
     )
-    report.assumptions += ["bitmap_resolution equals the PNG height (what resvg -h guarantees in the real pipeline)"]
